@@ -209,8 +209,8 @@ def rewrite_dataset(rng, D):
     for p, l, _ in E.families:
         E.groups += gen.encode(D.T, D.naming, p, l)
     E.base_groups = list(E.groups)
-    if rng.random() < 0.5:
-        E.groups = gen.nest_paralogs(rng, E.groups); E.meta['nested'] = True
+    if rng.random() < 0.8:
+        E.groups = gen.nest_paralogs(rng, E.groups, prob=0.9); E.meta['nested'] = True
     return E
 
 def strip_anns(c):
@@ -230,7 +230,7 @@ def c14(tier, seed):
         pairs = allp if len(allp) <= 15 else ex.rng.sample(allp, 15)
         ref, _ = canon_analysis(base, pairs)
         bad = []
-        for j in range(3 if tier == 'quick' else 6):
+        for j in range(4 if tier == 'quick' else 6):
             E = rewrite_dataset(ex.rng, D)
             ex.res.count('rewritings')
             if E.meta.get('nested'):
@@ -531,7 +531,11 @@ def c18(tier, seed):
 # ------------------------------------------------------------------------------------ C17
 
 def snapshot(h):
-    o = ob.Obs(); ob.observe_load(h, o)
+    o = ob.Obs()
+    try:
+        ob.observe_load(h, o)
+    except Exception as e:      # noqa
+        return ('observation raised %s' % type(e).__name__, None, None, None)
     return (o.get('forest'), o.get('genes'), o.get('genomes'), tuple(o.problems))
 
 def c17(tier, seed):
